@@ -69,6 +69,21 @@ Theorem C09_wd_modes : forall (uris : list bytes) (w ns pstr : bytes) (more : li
 Proof. exact c09_wd_modes. Qed.
 Print Assumptions C09_wd_modes.
 
+(* The converse reading, on what reached the wire: a request that was sent carries no capability-dependent construct
+   (RFC 6241 8.3-8.8, RFC 6243, RFC 5277: GatingSpec.wire_needs) whose capability the server did not advertise —
+   whatever the call, its optional arguments (timeout / persist / persist_id given alone, …) and the vendor override of
+   commit.  [wire_of] reads the same branches of request() as the checks, for what they emit. *)
+Theorem C09_wire_backed : forall (uris : list bytes) (c : call) (w : wire) (k : bytes),
+  snd (perform (SCaps (caps_of uris)) c) = Sent -> In w (wire_of c) -> In k (wire_needs w) -> advertised uris k.
+Proof. exact c09_wire_backed. Qed.
+Print Assumptions C09_wire_backed.
+
+(* ... and the with-defaults mode it carries is one of the modes the server lists. *)
+Theorem C09_sent_mode : forall (uris : list bytes) (c : call) (norm : bytes),
+  snd (perform (SCaps (caps_of uris)) c) = Sent -> wd_of c = Some norm -> wd_accepts uris norm.
+Proof. exact c09_sent_mode. Qed.
+Print Assumptions C09_sent_mode.
+
 (* ---------------- non-vacuity ---------------- *)
 Definition ex_uris : list bytes :=
   [ lit "urn:ietf:params:netconf:base:1.1"%string;
@@ -80,12 +95,12 @@ Definition ok_ds (s : string) : dsarg := DsStr (lit s) true.
 
 (* hypotheses of C09_refused hold: confirmed commit needs :confirmed-commit, not advertised *)
 Example C09_ex_refused_hyp :
-  In s_k_confirmed (needs (CCommit VStd true None None)) /\ ~ advertised ex_uris s_k_confirmed
-  /\ wellformed (CCommit VStd true None None) = true.
+  In s_k_confirmed (needs (CCommit VStd true false false false None None)) /\ ~ advertised ex_uris s_k_confirmed
+  /\ wellformed (CCommit VStd true false false false None None) = true.
 Proof. split; [simpl; auto|]. split; [apply absent_iff; vm_compute; reflexivity|reflexivity]. Qed.
 
 Example C09_ex_refused :
-  perform S_ex (CCommit VJunos true None None)
+  perform S_ex (CCommit VJunos true false false false None None)
   = ([EvAssert s_k_candidate; EvRegister; EvAssert s_k_confirmed], Exn MissingCapability).
 Proof. vm_compute. reflexivity. Qed.
 
@@ -116,6 +131,39 @@ Example C09_ex_wd_refused :
   = ([EvRegister; EvAssert s_k_wd; EvLookup s_k_wd], Exn WithDefaultsError).
 Proof. vm_compute. reflexivity. Qed.
 
+(* commit arguments given alone.  persist_id without confirmed (the follow-up of a persistent confirmed commit) carries
+   <persist-id>: refused without :confirmed-commit, for the standard and the SR OS class; timeout / persist without
+   confirmed carry nothing and need nothing; the Junos override has no persist_id *)
+Definition ex_uris_cc : list bytes :=
+  [ lit "urn:ietf:params:netconf:capability:candidate:1.0"%string;
+    lit "urn:ietf:params:xml:ns:netconf:capability:confirmed-commit:1.1"%string ].
+Example C09_ex_commit_alone :
+  perform S_ex (CCommit VSros false false false true None None)
+    = ([EvAssert s_k_candidate; EvRegister; EvAssert s_k_confirmed], Exn MissingCapability)
+  /\ perform S_ex (CCommit VStd false false false true None None)
+    = ([EvAssert s_k_candidate; EvRegister; EvAssert s_k_confirmed], Exn MissingCapability)
+  /\ perform S_ex (CCommit VSros false true true false None None) = ([EvAssert s_k_candidate; EvRegister; EvSend], Sent)
+  /\ wire_of (CCommit VSros false true true false None None) = [WCommit]
+  /\ perform S_ex (CCommit VJunos false true true true None None) = ([EvAssert s_k_candidate; EvRegister; EvSend], Sent)
+  /\ wire_of (CCommit VJunos false true true true None None) = [WCommit].
+Proof. repeat split; vm_compute; reflexivity. Qed.
+
+(* hypotheses of C09_wire_backed hold on a request with four dependent constructs *)
+Example C09_ex_wire_backed_hyp :
+  let c := CCommit VSros true true true false None None in
+  snd (perform (SCaps (caps_of ex_uris_cc)) c) = Sent
+  /\ wire_of c = [WCommit; WConfirmed; WConfirmTimeout; WPersist]
+  /\ wire_of (CCommit VStd false false false true None None) = [WCommit; WPersistId]
+  /\ snd (perform (SCaps (caps_of ex_uris_cc)) (CCommit VStd false false false true None None)) = Sent
+  /\ wire_of (CEditConfig (ok_ds "ftp://h/x") None (Some s_test_only) (Some s_rollback_on_error) s_f_url None true)
+     = [WUrl; WTestOption; WTestOnly; WRollbackOnError; WUrl].
+Proof. cbv zeta. repeat split; vm_compute; reflexivity. Qed.
+
+(* hypotheses of C09_sent_mode hold *)
+Example C09_ex_sent_mode_hyp :
+  snd (perform S_ex (CGet None (Some (lit "trim"%string)))) = Sent /\ wd_of (CGet None (Some (lit "trim"%string))) = Some (lit "trim"%string).
+Proof. split; vm_compute; reflexivity. Qed.
+
 (* an enumerated argument outside its set is refused before the capability is even asked *)
 Example C09_ex_enum_first :
   perform S_ex (CEditConfig (ok_ds "running") None (Some (lit "bogus"%string)) None (lit "xml"%string) None true)
@@ -126,7 +174,7 @@ Proof. vm_compute. reflexivity. Qed.
    check is skipped and the request goes out; an argument-level check still raises *)
 Example C09_ex_noattr :
   perform SNoAttr CDiscardChanges = ([EvRegister; EvSend], Sent)
-  /\ perform SNoAttr (CCommit VStd true None None) = ([EvRegister], Exn AttributeError).
+  /\ perform SNoAttr (CCommit VStd true false false false None None) = ([EvRegister], Exn AttributeError).
 Proof. split; vm_compute; reflexivity. Qed.
 
 (* ------------------------------------------------------------------------------------------ *)
@@ -180,6 +228,13 @@ Theorem C09_vendor_needs_exact : forall c : vgcall,
 Proof. exact c09_vendor_needs_exact. Qed.
 Print Assumptions C09_vendor_needs_exact.
 
+(* a vendor request that was sent carries no <url> (the only capability-dependent construct a vendor class other than
+   the two Commit classes can emit) unless the server advertised :url *)
+Theorem C09_vendor_wire_backed : forall (uris : list bytes) (c : vgcall) (w : wire) (k : bytes),
+  snd (vperform (SCaps (caps_of uris)) c) = Sent -> In w (vwire_of c) -> In k (wire_needs w) -> advertised uris k.
+Proof. exact c09_vendor_wire_backed. Qed.
+Print Assumptions C09_vendor_wire_backed.
+
 (* ---------------- non-vacuity ---------------- *)
 Definition ex_uris_nourl : list bytes :=
   [ lit "urn:ietf:params:netconf:base:1.0"%string; lit "urn:ietf:params:netconf:capability:candidate:1.0"%string ].
@@ -215,4 +270,11 @@ Example C09_ex_vendor_malformed :
   /\ vperform (SCaps (caps_of ex_uris_nourl)) (GHGetBulkConfig (DsStr (lit "ftp://h/x"%string) false) None)
      = ([EvRegister; EvAssert s_k_url], Exn MissingCapability)
   /\ vperform S_ex (GALoadConfiguration (lit "xml"%string) (DsBad TypeError) (Some None) None) = ([EvRegister], Exn TypeError).
+Proof. repeat split; vm_compute; reflexivity. Qed.
+
+Example C09_ex_vendor_wire :
+  vwire_of (GHGetBulkConfig (ok_ds "file:///x") None) = [WUrl]
+  /\ snd (vperform S_ex (GHGetBulkConfig (ok_ds "file:///x") None)) = Sent
+  /\ vwire_of (GALoadConfiguration (lit "cli"%string) (ok_ds "ftp://h/cfg") (Some None) None) = [WUrl]
+  /\ vwire_of (GALoadConfiguration (lit "json"%string) (ok_ds "ftp://h/cfg") (Some None) None) = [].
 Proof. repeat split; vm_compute; reflexivity. Qed.
